@@ -85,7 +85,8 @@ def discharge(obs: list[Obligation], timeout_ms: int = 10000, procs: int | None 
     if not todo:
         return
     _OBS = todo
-    tasks = [(i, timeout_ms, want_model) for i in range(len(todo))]
+    # vacuity canaries only have to be "not proved": a short budget is enough (a contradiction shows up at once)
+    tasks = [(i, min(timeout_ms, 2500) if todo[i].kind == "canary" else timeout_ms, want_model and todo[i].kind != "canary") for i in range(len(todo))]
     ctx = mp.get_context("fork")
     with ctx.Pool(min(procs, len(tasks))) as pool:
         for idx, res, backend, secs, model in pool.imap_unordered(_solve_one, tasks, chunksize=1):
